@@ -130,8 +130,9 @@ ImplK2V(k) == IF k \in Kars THEN <<KarToVowel[k]>> ELSE <<>>    \* the ten-way m
 (***************************************************************************)
 (* insert_old_style_reph: is_reph_moveable, then the right-to-left scan    *)
 (* with its four flags.  A character that is none of consonant, hasanta,   *)
-(* vowel, chandrabindu ends the scan (fix: "stop the scan at foreign       *)
-(* characters").                                                           *)
+(* vowel, chandrabindu is skipped without being counted (so on texts with  *)
+(* joiners or punctuation inside the last cluster the insertion point is   *)
+(* shifted; such texts are outside the placement clause of C13).           *)
 (***************************************************************************)
 ImplRephMoveable(buf) ==
     LET n   == Len(buf)
@@ -156,7 +157,7 @@ ImplRephScan(buf, idx, cons, vow, has, chan, step) ==
          ELSE IF c = CHANDRA THEN
               IF idx = 0 THEN ImplRephScan(buf, idx + 1, cons, vow, has, TRUE, step + 1)
               ELSE step
-         ELSE ImplRephScan(buf, idx + 1, cons, vow, has, chan, step)   \* PINNED TREE: foreign char is skipped, not counted
+         ELSE ImplRephScan(buf, idx + 1, cons, vow, has, chan, step)   \* foreign char: skipped, not counted
 
 ImplReph(s) ==
     IF s.buf # <<>> /\ ImplRephMoveable(s.buf)                 \* empty: "not moveable" (fix 1 of known_findings)
@@ -186,10 +187,11 @@ ImplKey(s, v, o) ==
     IN
     \* Zo-fola insertion
     IF v = ZOFOLA THEN
-        LET b1 == IF rmc = B_R /\ Last2(s.buf) # HASANTA THEN Append(s.buf, ZWJ) ELSE s.buf IN
-        IF o.karorder /\ rmc \in LeftKars
-        THEN [s EXCEPT !.buf = Front(b1) \o v \o <<Last(b1)>>]
-        ELSE [s EXCEPT !.buf = b1 \o v]
+        \* a left-standing sign placed by old-order typing is lifted, the bare-ra rule looks underneath
+        LET lift == o.karorder /\ rmc \in LeftKars
+            b0   == IF lift THEN Front(s.buf) ELSE s.buf
+            b1   == IF Last(b0) = B_R /\ Last2(b0) # HASANTA THEN Append(b0, ZWJ) ELSE b0
+        IN [s EXCEPT !.buf = b1 \o v \o (IF lift THEN <<rmc>> ELSE <<>>)]
     \* Old style reph insertion
     ELSE IF v = REPH /\ o.reph THEN ImplReph(s)
     \* Kar insertion
